@@ -145,6 +145,11 @@ def controlled_cases(draw, tier):
 def stress_cases(draw, tier):
     n = draw(st.integers(8, 32))
     hot = draw(st.lists(st.integers(0, N_PROBLEMS - 1), min_size=1, max_size=3))
+    if draw(st.booleans()):
+        # 'front-end storm': many threads lower, at the same time, assignments that mention one tensor twice (and one other
+        # problem) on a cold cache - state shared by the stages *before* compilation is hit from all sides
+        n = 32
+        hot = [draw(st.sampled_from([6, 10, 11, 12])), draw(st.sampled_from([6, 10, 11, 12])), draw(st.integers(0, N_PROBLEMS - 1))]
     calls = []
     for _ in range(n):
         p = draw(st.sampled_from(hot)) if draw(st.integers(0, 3)) else draw(st.integers(0, N_PROBLEMS - 1))
@@ -162,6 +167,9 @@ def compare(case, seq, conc, tag):
             if not make_call(*call).get("inconsistent"):
                 raise bridge.HarnessError(f"sequential reference call failed: {d}: {s['raised']}")
             # an inconsistent call is refused when made alone; it must be refused here too
+            if s["raised"].split(":")[0] not in ("ValueError", "TypeError"):
+                # (a compiler that could not be started, a full disk ...: the environment, not a verdict)
+                raise bridge.HarnessError(f"sequential reference of an inconsistent call failed in an unexpected way: {d}: {s['raised']}")
             if c is None:
                 fails.append(fail("call-did-not-finish", d))
             elif "raised" not in c:
@@ -242,14 +250,84 @@ def check(case, worker):
                                                           "choices_head": case.get("choices", [])[:20]}, extra)
 
 
+# -------------------------------------------------------- code generation under concurrency
+GEN_POOL = [
+    ("y(i) = b(i) * b(i)", [("y", "s"), ("b", "s")]), ("y(i) = b(i) + b(i) * b(i)", [("y", "s"), ("b", "s")]),
+    ("y(i,k) = A(i,j) * A(j,k)", [("y", "dd"), ("A", "ds")]), ("y() = x(i) * x(i)", [("y", ""), ("x", "s")]),
+    ("y(i) = A(i,j) * x(j) + 1", [("y", "d"), ("A", "ds"), ("x", "d")]), ("y(i,j) = A(i,j) + B(i,j)", [("y", "ds"), ("A", "ds"), ("B", "ds")]),
+    ("y(i,j) = A(i,j) * B(i,j) - C(i,j)", [("y", "ss"), ("A", "ss"), ("B", "ds"), ("C", "ss")]), ("y(j,i) = A(i,j)", [("y", "ds"), ("A", "d1s0")]),
+    ("z(i) = x(i) - w(i) * x(i)", [("z", "s"), ("x", "s"), ("w", "s")]), ("y(i) = a(i,k) * b(k,j) * c(j)", [("y", "d"), ("a", "ds"), ("b", "ds"), ("c", "d")]),
+]
+
+
+@st.composite
+def generation_cases(draw, tier):
+    """Requests for generated *text* made by several threads at once: no compilation, so the threads spend all their time
+    in the stages that build and print the kernel; under the line-level scheduler (2-3 threads) or free-running (8-24)."""
+    controlled = draw(st.booleans())
+    n = draw(st.integers(2, 3)) if controlled else draw(st.integers(8, 24))
+    reqs = []
+    for _ in range(n):
+        text, fm = GEN_POOL[draw(st.integers(0, len(GEN_POOL) - 1))]
+        reqs.append({"assignment": text, "formats": [list(p) for p in fm],
+                     "kinds": draw(st.sampled_from([["evaluate"], ["evaluate", "assemble", "compute"], ["compute", "assemble"]])),
+                     "language": draw(st.sampled_from(["c", "llvm"]))})
+    case = {"mode": "generate", "requests": reqs, "fresh_process": draw(st.integers(0, 3)) == 0}
+    if controlled:
+        kind = draw(st.sampled_from(["round_robin", "bursts", "random"]))
+        if kind == "round_robin":
+            case["choices"] = [0] * draw(st.integers(0, 40)) + list(range(n)) * 30
+        elif kind == "bursts":
+            b = draw(st.integers(2, 25))
+            case["choices"] = [t for t in range(n) for _ in range(b)]
+        else:
+            case["choices"] = draw(st.lists(st.integers(0, 2), min_size=30, max_size=200))
+    return case
+
+
+def check_generation(case, worker):
+    labels = {"mode:generate", "generate:controlled" if case.get("choices") is not None else "generate:free-running"}
+    if case.get("fresh_process"):
+        worker.close()  # nothing has been generated in the new child yet (one-time initialisation races)
+        labels.add("first_generations_of_a_fresh_process_race")
+    rep = worker.call({"op": "generate", "workload": case["requests"], "choices": case.get("choices"), "nthreads": 8, "rounds": 2,
+                       "concurrent_first": bool(case.get("fresh_process"))}, timeout=600)
+    if "crash" in rep:
+        return result([fail("process-crashed", f"concurrent code generation {case['requests']}: {rep['crash']}")], labels, True, jhash(case), None)
+    if "error" in rep:
+        raise bridge.HarnessError(rep["error"] + rep.get("trace", ""))
+    fails = []
+    for r, rd in enumerate(rep["rounds"]):
+        if rd["hung"]:
+            fails.append(fail("threads-hung", f"concurrent code generation round {r}"))
+            worker.close()
+            break
+        for k, (s, c) in enumerate(zip(rep["sequential"], rd["results"])):
+            g = case["requests"][k]
+            d = f"generate_code({g['assignment']!r}, {g['formats']}, {g['kinds']}, {g['language']}) by thread {k}, round {r}"
+            if "raised" in s:
+                raise bridge.HarnessError(f"sequential reference generation failed: {d}: {s['raised']}")
+            if c is None:
+                fails.append(fail("call-did-not-finish", d))
+            elif "raised" in c:
+                fails.append(fail(f"concurrent-generation-raises:{c['raised'].split(':')[0]}", f"{d}: {c['raised']}"))
+            elif c != s:
+                fails.append(fail("generated-text-differs-from-sequential", f"{d}: {c} vs alone {s}"))
+    seen = set()
+    uniq = [f for f in fails if not (f["bucket"] in seen or seen.add(f["bucket"]))]
+    distinct = len({(g["assignment"], g["language"], tuple(g["kinds"])) for g in case["requests"]})
+    return result(uniq, labels, distinct >= 2, jhash(case), {"mode": "generate", "requests": [[g["assignment"], g["language"]] for g in case["requests"]][:6]},
+                  {"generation_requests": len(case["requests"]) * len(rep["rounds"]), "context_switches": rep.get("switches", 0)})
+
+
 def task(t):
     kind, tier, seed, shard, n = t
     stats = Stats()
-    strat = controlled_cases(tier) if kind == "controlled" else stress_cases(tier)
+    strat = {"controlled": controlled_cases, "stress": stress_cases, "generate": generation_cases}[kind](tier)
     w = Worker(module="harness.native.concchild")
     try:
-        for case in generate_cases(strat, n, seed * 6007 + shard + (0 if kind == "controlled" else 500)):
-            stats.add(case, check(case, w))
+        for case in generate_cases(strat, n, seed * 6007 + shard + {"controlled": 0, "stress": 500, "generate": 900}[kind]):
+            stats.add(case, check_generation(case, w) if kind == "generate" else check(case, w))
     finally:
         w.close()
     return stats
@@ -258,6 +336,8 @@ def task(t):
 def replay(payload):
     w = Worker(module="harness.native.concchild")
     try:
+        if payload["case"].get("mode") == "generate":
+            return check_generation(payload["case"], w)["fails"]
         return check(payload["case"], w)["fails"]
     finally:
         w.close()
@@ -266,9 +346,11 @@ def replay(payload):
 def run(chk):
     quick = chk.tier == "quick"
     nc = 96 if quick else 2400
-    ns = 16 if quick else 200
+    ns = 30 if quick else 300
     tasks = [("controlled", chk.tier, chk.seed, s, nc // 12) for s in range(12)]
-    tasks += [("stress", chk.tier, chk.seed, s, max(1, ns // 4)) for s in range(4)]
+    tasks += [("stress", chk.tier, chk.seed, s, max(1, ns // 6)) for s in range(6)]
+    ng = 64 if quick else 1600
+    tasks += [("generate", chk.tier, chk.seed, s, ng // 4) for s in range(4)]
     chk.absorb(run_tasks(task, tasks), kind="workload")
 
 
